@@ -129,15 +129,25 @@ func acquireLock(lockPath string) (*os.File, error) {
 		return nil, fmt.Errorf("failed to create lock directory: %w", err)
 	}
 
-	lockFile, err := os.OpenFile(lockPath, os.O_CREATE|os.O_WRONLY, 0644)
-	if err != nil {
-		return nil, fmt.Errorf("failed to create lock file: %w", err)
-	}
-	if err := syscall.Flock(int(lockFile.Fd()), syscall.LOCK_EX); err != nil {
+	for {
+		lockFile, err := os.OpenFile(lockPath, os.O_CREATE|os.O_WRONLY, 0644)
+		if err != nil {
+			return nil, fmt.Errorf("failed to create lock file: %w", err)
+		}
+		if err := syscall.Flock(int(lockFile.Fd()), syscall.LOCK_EX); err != nil {
+			lockFile.Close()
+			return nil, fmt.Errorf("failed to acquire lock: %w", err)
+		}
+		// The previous holder removes the lock file when it is done. A lock on
+		// a file that is no longer at lockPath excludes nobody: try again.
+		if held, err := lockFile.Stat(); err == nil {
+			if cur, err := os.Stat(lockPath); err == nil && os.SameFile(held, cur) {
+				return lockFile, nil
+			}
+		}
+		syscall.Flock(int(lockFile.Fd()), syscall.LOCK_UN)
 		lockFile.Close()
-		return nil, fmt.Errorf("failed to acquire lock: %w", err)
 	}
-	return lockFile, nil
 }
 
 // releaseLock unlocks and removes the lock file
@@ -146,9 +156,11 @@ func releaseLock(lockFile *os.File) error {
 		return nil
 	}
 	lockPath := lockFile.Name()
+	// Remove the file while the lock is still held, so that no waiter can
+	// lock the file and find it at lockPath after it has been given up.
+	os.Remove(lockPath)
 	syscall.Flock(int(lockFile.Fd()), syscall.LOCK_UN)
 	lockFile.Close()
-	os.Remove(lockPath)
 	return nil
 }
 
